@@ -571,9 +571,118 @@ func reportStuck(c *core.Ctx, s *scen, stream string, idx int, desc string, v *s
 		map[string]interface{}{"case": desc, "trace": traceTail(s.tr, s.tp, 60)})
 }
 
+// ---- dependency scenarios ------------------------------------------------------
+//
+// "every task added is started ... without any further call being needed" must
+// also hold while other workers are busy: a task that waits (inside its Run)
+// for a task submitted right after it can only finish if an idle worker is
+// woken for the second one. Each round submits such a pair back to back.
+
+func runDep(c *core.Ctx, idx int) {
+	stream := "dep"
+	r := c.Rng(stream, idx)
+	tr := sched.NewTracer()
+	s := newScen(tr, 4096)
+	tr.Filter = func(p string, a []interface{}) bool { return len(a) > 0 && a[0] == s.tp }
+	tr.SetNoise(r.U64(), uint64(r.OneOf(0, 0, 100, 400)))
+	tr.Install()
+	defer sched.Uninstall()
+	workers := r.Range(2, 6)
+	rounds := r.Range(3, 25)
+	width := r.Range(1, workers-1) // tasks that wait at the same time (< workers)
+	desc := fmt.Sprintf("workers=%d rounds=%d waiting-tasks-per-round=%d", workers, rounds, width)
+	c.Begin(0, stream, idx, desc)
+	defer c.End(0)
+	s.tp.SetWorkerCount(workers, false)
+	var blockedG sync.Map // goroutine id -> true while a waiting task is blocked on it
+	for rd := 0; rd < rounds; rd++ {
+		started := make(chan struct{})
+		var once sync.Once
+		base := s.n()
+		for w := 0; w < width; w++ {
+			s.addTask(&task{onRun: func(int) {
+				g := sched.GoID()
+				blockedG.Store(g, true)
+				<-started
+				blockedG.Delete(g)
+			}})
+		}
+		target := s.addTask(&task{onRun: func(int) { once.Do(func() { close(started) }) }})
+		// no pool call from here until the round is over or the pool is stuck
+		res := "inconclusive"
+		for i := 0; i < 4000; i++ {
+			if s.allEnded() {
+				res = "done"
+				break
+			}
+			if i > 3 && atomic.LoadInt32(&s.started[target]) == 0 && depStuck(s, &blockedG) {
+				if atomic.LoadInt32(&s.started[target]) == 0 {
+					res = "stuck"
+					break
+				}
+			}
+			if i < 50 {
+				time.Sleep(50 * time.Microsecond)
+			} else {
+				time.Sleep(time.Millisecond)
+			}
+		}
+		if res == "stuck" {
+			c.Violation("stuck:queued-task-with-idle-worker", fmt.Sprintf("task %d is queued and is never started: %d worker(s) wait inside tasks for it, every other worker is parked in Cond.Wait, no AddTask in flight, no pool call outstanding", target, width), stream, idx,
+				map[string]interface{}{"case": desc, "round": rd, "first_task_of_round": base, "trace": traceTail(tr, s.tp, 40)})
+			once.Do(func() { close(started) })
+			s.tp.JoinAll()
+			return
+		}
+		if res == "inconclusive" {
+			c.Inconclusive("round neither finished nor stuck", stream, idx, map[string]interface{}{"case": desc, "round": rd})
+			once.Do(func() { close(started) })
+			s.tp.JoinAll()
+			return
+		}
+	}
+	s.tp.JoinAll()
+	checkExactlyOnce(c, s, stream, idx, desc, true)
+	c.Nontrivial(sched.Signature(tr.Snapshot(), onlyPool))
+	c.Event("interleaving", 1)
+	c.Event("dep.rounds", int64(rounds))
+	countEvents(c, tr)
+	if idx%41 == 0 {
+		c.Sample("dep", desc)
+	}
+}
+
+// depStuck: like sched.PoolStuck, but workers whose goroutine is blocked inside
+// a waiting harness task (channel receive) are accepted next to parked ones; at
+// least one worker must be parked idle.
+func depStuck(s *scen, blockedG *sync.Map) bool {
+	seq0 := s.tr.Now()
+	evs := s.tr.Snapshot()
+	v := sched.ViewPool(evs, s.tp)
+	if len(v.LiveWorkers) == 0 || v.Pushed != v.Signalled || s.tp.WorkerCount() != len(v.LiveWorkers) {
+		return false
+	}
+	st := sched.GoStates()
+	idle := 0
+	for g := range v.LiveWorkers {
+		p := v.LastPoint[g]
+		if _, blocked := blockedG.Load(g); blocked {
+			if p != "pool.get.popped" || st[g] != "chan receive" {
+				return false
+			}
+			continue
+		}
+		if (p != "pool.idle.locked" && p != "pool.idle.beforewait") || st[g] != "sync.Cond.Wait" {
+			return false
+		}
+		idle++
+	}
+	return idle > 0 && s.tr.Now() == seq0
+}
+
 // Run is the check.
 func Run(c *core.Ctx) {
-	c.Note("rule", "directed gates: 6 templates (submit, burst, resize down (wait/no wait), JoinAll, WaitAll) x 5 worker hold points x 3 partner points x {1,2,3} workers, each holding one worker at the hold point until the partner call passed its point (infeasible pairs are released and counted); noise: seeded random scenarios (1..16 workers, bursts, single submissions separated by idle periods with no pool call, concurrent submitters, WaitAll, resizes with/without wait, tasks that sleep or submit children) with random yields/sleeps at lock-free hook points; monitors: exactly-once table per task id, stuck-state predicate over the hook trace + scheduler state (Cond.Wait) for lost wake-ups and non-converging worker counts, stamp order for WaitAll/JoinAll/SetWorkerCount returns; non-trivial/distinct = distinct interleaving signatures (hash of the (goroutine role, hook point) sequence) plus feasible gate cases")
+	c.Note("rule", "directed gates: 6 templates (submit, burst, resize down (wait/no wait), JoinAll, WaitAll) x 5 worker hold points x 3 partner points x {1,2,3} workers, each holding one worker at the hold point until the partner call passed its point (infeasible pairs are released and counted); dep: rounds of task pairs where the first waits inside Run for the start of the second (2..6 workers) decided by a stuck predicate that accepts workers blocked inside waiting tasks; noise: seeded random scenarios (1..16 workers, bursts, single submissions separated by idle periods with no pool call, concurrent submitters, WaitAll, resizes with/without wait, tasks that sleep or submit children) with random yields/sleeps at lock-free hook points; monitors: exactly-once table per task id, stuck-state predicate over the hook trace + scheduler state (Cond.Wait) for lost wake-ups and non-converging worker counts, stamp order for WaitAll/JoinAll/SetWorkerCount returns; non-trivial/distinct = distinct interleaving signatures (hash of the (goroutine role, hook point) sequence) plus feasible gate cases")
 	gcs := gateCases()
 	for i, gc := range gcs {
 		if !c.Take("gate", i) {
@@ -583,6 +692,16 @@ func Run(c *core.Ctx) {
 		if i%37 == 0 {
 			c.Sample("gate", fmt.Sprintf("%+v", gc))
 		}
+	}
+	nd := c.Pick(320, 20000)
+	if c.Race {
+		nd = c.Pick(96, 4000)
+	}
+	for i := 0; i < nd; i++ {
+		if !c.Take("dep", i) {
+			continue
+		}
+		runDep(c, i)
 	}
 	n := c.Pick(1600, 120000)
 	if c.Race {
